@@ -37,7 +37,7 @@ LEVEL_TEXT = ('Machine-checked proof (Coq 8.16.1) over an executable mechanism-l
               'int/str attributes, unique attributes, many-to-one/one-to-many): for every well-formed schema and EVERY operation history (create, assign, Entity.set, '
               'delete with cascades, collection add/remove/assign, loading reads, Entity[pk]/get/select, flush/commit/rollback/new session) the index invariant '
               'Inv_idx (an index entry exists exactly for the live object holding that key value) holds and the identity map is functional, provided no dirty site '
-              'was reached; the two defect sites relevant to C11 (failed Entity.set, failed creation) are refuted by witnesses in Findings/C11.v and listed as known findings. '
+              'was reached; the two defect sites relevant to C11 (failed Entity.set, failed creation) have witnesses in Findings/C11.v that refute the invariant for the OLD shape of the code; both are repaired in /repo (cd0fda9, 751c8a4), the witnesses are stated under the source-derived flags entity_set_registers_undo / failed_create_unregisters (vacuous on HEAD) and the findings are recorded as fixed; the model still treats a failed creation as dirty site 1 (it claims nothing after it). '
               'Tie: history fuzzer compares per-op results and per-commit rows of the model (vm_compute) with real Pony+SQLite on every run. '
               'Stage 2/3 (one-to-one, many-to-many, composite keys, inheritance) are outside the theorems; one-to-one, many-to-many and composite_key are covered on the implementation side only '
               '(half of the search histories; the composite index is checked like a simple one) - that search found a third defect: a creation that succeeds with two live objects holding one unique value.')
